@@ -67,6 +67,9 @@ func c08Child(mode string) {
 		os.Exit(4)
 	}
 	writers, _ := strconv.Atoi(os.Getenv("VH_C08_WRITERS"))
+	if mode == "storeloop" {
+		c08ChildLoop(dir, unc, data, writers)
+	}
 	if writers <= 1 {
 		if err := s.StoreChunk(desync.NewChunk(data)); err != nil {
 			os.Exit(3)
@@ -680,7 +683,7 @@ func c08TwoWriters(a vh.Args, o *vh.Oracle, r *vh.Result, unc bool, data []byte,
 }
 
 func runC08(a vh.Args, o *vh.Oracle, r *vh.Result) error {
-	r.Rule = "store cases = (format; chunk data; prior store content) x (death on entering every store-related system call of the uninjected trace, and at exit) + (RLIMIT_FSIZE 0, 1, half, size-1; SIGXFSZ fatal or ignored) + two concurrent writers of the same chunk killed at the k-th openat/write/close/renameat/mkdirat of any thread; extract cases = (blob, n workers, k) with the process killed at the k-th chunk request, with and without --in-place; non-trivial = the child was actually killed (store) / the kill happened before the last chunk (extract)"
+	r.Rule = "store cases = (format; chunk data; prior store content) x (death on entering every store-related system call of the uninjected trace, and at exit) + (RLIMIT_FSIZE 0, 1, half, size-1; SIGXFSZ fatal or ignored) + two concurrent writers of the same chunk killed at the k-th openat/write/close/renameat/mkdirat of any thread + 6 concurrent writers of one 4 MiB chunk for 25 (150) rounds with an observer polling only the final name + a child running rounds of 4 concurrent writers of one 2 MiB chunk killed with SIGKILL after a random delay; extract cases = (blob, n workers, k) with the process killed at the k-th chunk request, with and without --in-place; non-trivial = the child was actually killed (store) / the kill happened before the last chunk (extract)"
 	desync.Digest = desync.SHA256{}
 	if _, err := exec.LookPath("strace"); err != nil {
 		r.Note("strace not found: process-death cases cannot run")
@@ -740,6 +743,9 @@ func runC08(a vh.Args, o *vh.Oracle, r *vh.Result) error {
 			return err
 		}
 	}
+	if err := c08ConcurrentAll(a, r, rng); err != nil {
+		return err
+	}
 	r.Sample(map[string]interface{}{"kind": "store-kill", "note": "one case = one child process killed at one system call"})
 	return c08Extract(a, o, r, rng)
 }
@@ -773,6 +779,10 @@ func c08Replay(a vh.Args, o *vh.Oracle, r *vh.Result, c *c08Case) error {
 		r.Note("child: %s", exit)
 		r.Count("replay", true)
 		return c08CheckStore(a, o, r, c, dir, reach, exit)
+	case "store-concurrent":
+		return c08Concurrent(a, r, c)
+	case "store-concurrent-kill":
+		return c08ConcurrentKill(a, r, c)
 	case "extract-kill", "extract-inplace":
 		return c08ExtractCase(a, r, c)
 	}
